@@ -41,7 +41,7 @@ def base_rows(n, variant=0):
         key = {"H": 100.0, "D": 10.0, "L": 10.5}[c] + i + 0.25 * (variant % 10)
         if variant >= 10:
             key = -key  # the best single feature is lower-is-better
-        f2 = {"H": 3.0, "D": 1.0, "L": 2.0}[c] + ((i * 7 + variant) % 5) * 0.3
+        f2 = ({"H": 3.0, "D": 1.0, "L": 2.0}[c] if variant < 10 else 0.0) + ((i * 7 + variant) % 5) * 0.3
         rows.append(dict(key=key, f2=f2, f3=float((i * 3 + variant) % 4), target=c != "D", spec=i, pep=f"P{i}"))
     return rows
 
@@ -263,9 +263,9 @@ def extras_case(case, acc):
     # predicts for its training rows must be what its estimator returned for those rows in the last training iteration
     # (features are matched by name, also after a second fit).  A re-fit starts from the trained model, so it is NOT
     # compared with a fresh model.
-    def last_scores(m):
+    def last_scores(m, fitted_order):
         e = [x for x in m.estimator.log_ if x[0] == "score" and x[1] == "train"][-1]
-        j = list(m.features).index("key")  # position of the key feature in the rows the estimator saw
+        j = list(fitted_order).index("key")  # position of the key feature in the rows the estimator saw while training
         return {row[j]: v for row, v in zip(e[5], e[3])}
 
     model = make_model(case["kind"], first_only=False, full=True, max_iter=case["max_iter"], shuffle=case["shuffle"], rng=case["seed"])
@@ -281,7 +281,7 @@ def extras_case(case, acc):
             acc.count("refit_skipped_training_refused")
             continue
         acc.count("refit_predictions")
-        want = last_scores(model)
+        want = last_scores(model, order)
         for target_order in (("key", "f2", "f3"), order):
             got = model.predict(make_psms(rows0, target_order))
             exp = np.array([want[r["key"]] for r in rows0])
